@@ -182,6 +182,9 @@ async fn a_write(op: &Value) -> Value {
             v
         }
         _ => {
+            if let Some(c) = opt_s(op, "clock_at_commit") {
+                set_clock_ms(c.parse::<u128>().ok());
+            }
             let mut v = res_sri(w.commit().await);
             if v["r"] == "err" {
                 v["phase"] = json!("commit");
@@ -239,6 +242,10 @@ async fn a_reader(op: &Value) -> Value {
                 v["got"] = bytes_json(&got);
                 return v;
             }
+        }
+        if bufs.iter().all(|b| *b == 0) && i >= 4 {
+            // only zero-length buffers were offered: EOF cannot be observed, stop without the final check
+            return ok(json!({"got": bytes_json(&got), "checked": false}));
         }
         if i > 10_000_000 {
             return json!({"r":"hang","msg":"reader never reached EOF"});
